@@ -126,10 +126,33 @@ struct Spec {
     fail_at: usize,
     end: End,
     slow_us: u64,
+    /// writer: wait on the gate before event `k` (the harness opens it)
+    gate: Option<(usize, Arc<Gate>)>,
+    /// writer: sleep `ms` once before event `k`
+    pause: Option<(usize, u64)>,
     value: Option<ValueCase>,
     typed_u8: Option<Arc<Vec<u8>>>,
     typed_f64: Option<Arc<Vec<f64>>>,
     complex: Option<Arc<Vec<Complex<f32>>>>,
+}
+
+/// A one-shot gate a scripted producer parks on until the harness opens it (or 60 s pass).
+struct Gate {
+    open: Mutex<bool>,
+    cv: std::sync::Condvar,
+}
+impl Gate {
+    fn new() -> Arc<Gate> {
+        Arc::new(Gate { open: Mutex::new(false), cv: std::sync::Condvar::new() })
+    }
+    fn wait(&self) {
+        let g = self.open.lock().unwrap();
+        let _ = self.cv.wait_timeout_while(g, Duration::from_secs(60), |o| !*o);
+    }
+    fn release(&self) {
+        *self.open.lock().unwrap() = true;
+        self.cv.notify_all();
+    }
 }
 
 fn specs() -> &'static Mutex<HashMap<String, Spec>> {
@@ -177,7 +200,17 @@ type BoxedWriter = Box<dyn FnOnce(&mut dyn Write) -> io::Result<()> + Send>;
 fn writer_body(spec: Spec) -> BoxedWriter {
     Box::new(move |w: &mut dyn Write| -> io::Result<()> {
         let mut pos = 0usize;
-        for e in &spec.evs {
+        for (i, e) in spec.evs.iter().enumerate() {
+            if let Some((k, g)) = &spec.gate {
+                if *k == i {
+                    g.wait();
+                }
+            }
+            if let Some((k, ms)) = &spec.pause {
+                if *k == i {
+                    std::thread::sleep(Duration::from_millis(*ms));
+                }
+            }
             if spec.slow_us > 0 {
                 std::thread::sleep(Duration::from_micros(spec.slow_us));
             }
@@ -275,8 +308,8 @@ impl Servers {
 type WsStream = tokio_tungstenite::WebSocketStream<tokio_tungstenite::MaybeTlsStream<tokio::net::TcpStream>>;
 
 enum Conn {
-    Tcp { s: std::net::TcpStream, buf: Vec<u8> },
-    Ws { ws: WsStream },
+    Tcp { s: std::net::TcpStream, buf: Vec<u8>, stash: Vec<RawFrame> },
+    Ws { ws: WsStream, stash: Vec<RawFrame> },
 }
 
 static NEXT_REQ_ID: AtomicU64 = AtomicU64::new(1000);
@@ -287,7 +320,7 @@ impl Conn {
             "tcp" => {
                 let s = std::net::TcpStream::connect(addr).map_err(|e| format!("connect: {e}"))?;
                 s.set_nodelay(true).ok();
-                Ok(Conn::Tcp { s, buf: Vec::new() })
+                Ok(Conn::Tcp { s, buf: Vec::new(), stash: Vec::new() })
             }
             _ => {
                 let url = format!("ws://{}/repe", addr);
@@ -297,20 +330,40 @@ impl Conn {
                     cfg.max_frame_size = Some(32 << 20);
                     tokio_tungstenite::connect_async_with_config(&url, Some(cfg), true).await.map(|x| x.0).map_err(|e| format!("ws connect: {e}"))
                 })?;
-                Ok(Conn::Ws { ws })
+                Ok(Conn::Ws { ws, stash: Vec::new() })
             }
         }
     }
 
     /// Send one request; for a non-notify wait for the frame with the same id.
     fn call(&mut self, sv: &Servers, path: &str, body: &[u8], notify: bool) -> Result<Option<RawFrame>, String> {
+        let id = self.send(sv, path, body, notify)?;
+        if notify {
+            return Ok(None);
+        }
+        self.wait(sv, id).map(Some)
+    }
+
+    /// Send one request without waiting; returns its id.
+    fn send(&mut self, sv: &Servers, path: &str, body: &[u8], notify: bool) -> Result<u64, String> {
         let id = NEXT_REQ_ID.fetch_add(1, Ordering::Relaxed);
         let wire = RawFrame::request(id, notify, 1, path.as_bytes(), 1, body).to_vec();
         match self {
-            Conn::Tcp { s, buf } => {
-                s.write_all(&wire).map_err(|e| format!("write: {e}"))?;
-                if notify {
-                    return Ok(None);
+            Conn::Tcp { s, .. } => s.write_all(&wire).map_err(|e| format!("write: {e}"))?,
+            Conn::Ws { ws, .. } => {
+                use tokio_tungstenite::tungstenite::Message as WsMsg;
+                sv.rt.block_on(async { ws.send(WsMsg::Binary(wire)).await.map_err(|e| format!("ws send: {e}")) })?
+            }
+        }
+        Ok(id)
+    }
+
+    /// Wait for the response with this id; responses to other requests are kept for their own `wait`.
+    fn wait(&mut self, sv: &Servers, id: u64) -> Result<RawFrame, String> {
+        match self {
+            Conn::Tcp { s, buf, stash } => {
+                if let Some(i) = stash.iter().position(|f| f.h.id == id) {
+                    return Ok(stash.remove(i));
                 }
                 let deadline = Instant::now() + WATCHDOG;
                 s.set_read_timeout(Some(Duration::from_millis(200))).ok();
@@ -319,8 +372,9 @@ impl Conn {
                     while let Some((f, n)) = RawFrame::parse_prefix(buf) {
                         buf.drain(..n);
                         if f.h.id == id {
-                            return Ok(Some(f));
+                            return Ok(f);
                         }
+                        stash.push(f);
                     }
                     if Instant::now() > deadline {
                         return Err("timeout".into());
@@ -333,13 +387,12 @@ impl Conn {
                     }
                 }
             }
-            Conn::Ws { ws } => {
+            Conn::Ws { ws, stash } => {
                 use tokio_tungstenite::tungstenite::Message as WsMsg;
+                if let Some(i) = stash.iter().position(|f| f.h.id == id) {
+                    return Ok(stash.remove(i));
+                }
                 sv.rt.block_on(async {
-                    ws.send(WsMsg::Binary(wire)).await.map_err(|e| format!("ws send: {e}"))?;
-                    if notify {
-                        return Ok(None);
-                    }
                     let deadline = tokio::time::Instant::now() + WATCHDOG;
                     loop {
                         match tokio::time::timeout_at(deadline, ws.next()).await {
@@ -349,8 +402,9 @@ impl Conn {
                             Ok(Some(Ok(WsMsg::Binary(b)))) => match RawFrame::parse_prefix(&b) {
                                 Some((f, n)) if n == b.len() => {
                                     if f.h.id == id {
-                                        return Ok(Some(f));
+                                        return Ok(f);
                                     }
+                                    stash.push(f);
                                 }
                                 _ => return Err("malformed-ws-message".to_string()),
                             },
@@ -363,7 +417,7 @@ impl Conn {
     }
 
     fn close(self, sv: &Servers) {
-        if let Conn::Ws { mut ws } = self {
+        if let Conn::Ws { mut ws, .. } = self {
             sv.rt.block_on(async {
                 let _ = tokio::time::timeout(Duration::from_millis(200), ws.close(None)).await;
             });
@@ -466,6 +520,8 @@ fn build(p: &Params) -> Option<Built> {
         fail_at: p.fail_at,
         end: p.end,
         slow_us: if p.speed == 'p' { 1500 } else { 0 },
+        gate: None,
+        pause: None,
         value: None,
         typed_u8: None,
         typed_f64: None,
@@ -498,6 +554,12 @@ fn build(p: &Params) -> Option<Built> {
             let logical = data[..written].to_vec();
             spec.data = Arc::new(data);
             spec.evs = p.evs.clone();
+            if let Some(k) = p.variant.strip_prefix('g').and_then(|k| k.parse::<usize>().ok()) {
+                spec.gate = Some((k, Gate::new()));
+            }
+            if let Some((ms, k)) = p.variant.strip_prefix("pz").and_then(|r| r.split_once("at")) {
+                spec.pause = Some((k.parse().ok()?, ms.parse().ok()?));
+            }
             Some(Built { spec, logical, evs_tok: evs_tok(&p.evs), is_pattern: p.seed == 0 && p.variant != "rec" })
         }
         "value" => {
@@ -611,7 +673,12 @@ fn do_open(conn: &mut Conn, sv: &Servers, resource: &str) -> Result<OpenResponse
 
 fn do_next(conn: &mut Conn, sv: &Servers, stream_id: u64, problems: &mut Vec<String>) -> Pulled {
     let body = beve::to_vec(&NextRequest { stream_id }).unwrap();
-    match conn.call(sv, "/_svs/next", &body, false) {
+    let r = conn.call(sv, "/_svs/next", &body, false);
+    pulled_of(r, problems)
+}
+
+fn pulled_of(r: Result<Option<RawFrame>, String>, problems: &mut Vec<String>) -> Pulled {
+    match r {
         Err(e) => Pulled::Bad(e),
         Ok(None) => Pulled::Bad("none".into()),
         Ok(Some(f)) => {
@@ -810,6 +877,52 @@ fn exec_raw(sv: &mut Servers, out: &mut Out, idx: &str, p: &Params, script: &str
                                 }
                                 obs.push(format!("[{}]", toks.join(" ")));
                             }
+                            "q" => {
+                                // a `next` parked on the gated producer, `cancel` from elsewhere while it is parked
+                                let Some((_, gate)) = built.spec.gate.clone() else { return None };
+                                let body = beve::to_vec(&NextRequest { stream_id: open.stream_id }).unwrap();
+                                match conn.send(sv, "/_svs/next", &body, false) {
+                                    Err(e) => {
+                                        failures.push(("svs.raw.send".into(), e));
+                                        obs.push("send-failed".into());
+                                    }
+                                    Ok(req_id) => {
+                                        std::thread::sleep(Duration::from_millis(250));
+                                        let cancelled = if p.srv == "tcp" {
+                                            // the blocking server serves one request per connection at a time
+                                            match Conn::connect(sv, &p.srv, addr) {
+                                                Ok(mut c2) => {
+                                                    let r = do_cancel(&mut c2, sv, open.stream_id, false);
+                                                    c2.close(sv);
+                                                    r
+                                                }
+                                                Err(e) => Err(e),
+                                            }
+                                        } else {
+                                            // off-reader `next`: the same WebSocket connection stays free for the cancel
+                                            do_cancel(&mut conn, sv, open.stream_id, false)
+                                        };
+                                        gate.release();
+                                        let parked = pulled_of(conn.wait(sv, req_id).map(Some), &mut shape);
+                                        match &parked {
+                                            // issued before the release: a chunk is fine, so is an error
+                                            Pulled::Chunk { .. } => st.on_pull(&parked, p.end, &mut failures),
+                                            Pulled::Err => {}
+                                            Pulled::Bad(e) => failures.push((format!("svs.raw.{}", e.split(':').next().unwrap_or("io").replace(' ', "_")), format!("parked next: {e}"))),
+                                        }
+                                        out.count(&format!("svs.parked.{}", match &parked { Pulled::Chunk { .. } => "chunk", Pulled::Err => "err", _ => "bad" }));
+                                        obs.push("*".into());
+                                        match cancelled {
+                                            Ok(()) => obs.push("ack".into()),
+                                            Err(e) => {
+                                                failures.push(("svs.raw.cancel_failed".into(), e));
+                                                obs.push("cancel-failed".into());
+                                            }
+                                        }
+                                        st.released = true;
+                                    }
+                                }
+                            }
                             "c" | "k" => {
                                 match do_cancel(&mut conn, sv, open.stream_id, t == "k") {
                                     Ok(()) => obs.push(if t == "c" { "ack".into() } else { "-".into() }),
@@ -860,6 +973,9 @@ fn exec_raw(sv: &mut Servers, out: &mut Out, idx: &str, p: &Params, script: &str
             }
             conn.close(sv);
         }
+    }
+    if let Some((_, g)) = &built.spec.gate {
+        g.release();
     }
     unregister(&resource);
     let nontrivial = pulls.len() >= 2 || n_tokens >= 3;
@@ -1054,9 +1170,10 @@ fn start_stall(sv: &mut Servers, p: &Params, client: &str) -> Option<StallJob> {
 
 fn finish_stall(job: StallJob, idx: &str) -> RawResult {
     let p = &job.p;
+    let puller = if job.client == "sync" { "vec" } else { "consume" };
     let op = format!(
-        "hl {} {} {} consume {} {} {} {} {} {} {} {}",
-        idx, p.srv, job.client, p.kind, p.comp, p.chunk, p.depth, job.stream_token, job.evs_tok, p.end.tok(), p.aux()
+        "hl {} {} {} {} {} {} {} {} {} {} {} {}",
+        idx, p.srv, job.client, puller, p.kind, p.comp, p.chunk, p.depth, job.stream_token, job.evs_tok, p.end.tok(), p.aux()
     );
     let result = job.handle.join().unwrap_or(HlOut::Err("consumer thread panicked".into()));
     unregister(&job.resource);
@@ -1065,13 +1182,23 @@ fn finish_stall(job: StallJob, idx: &str) -> RawResult {
     let obs = match &result {
         HlOut::Bytes(b) => {
             if *b != job.built_logical {
-                failures.push((
-                    "svs.hl.consume.stalled_bytes_mismatch".to_string(),
-                    format!(
-                        "pull_consume_async over {} with a consumer stalling {} reported success with {} bytes, producer emitted {}; first difference {:?}",
-                        job.client, p.variant, b.len(), job.built_logical.len(), first_diff(b, &job.built_logical)
-                    ),
-                ));
+                if job.client == "sync" {
+                    failures.push((
+                        "svs.hl.vec.paused_bytes_mismatch".to_string(),
+                        format!(
+                            "pull_to_vec over the blocking client with a producer pausing {} reported success with {} bytes, producer emitted {}; first difference {:?}",
+                            p.variant, b.len(), job.built_logical.len(), first_diff(b, &job.built_logical)
+                        ),
+                    ));
+                } else {
+                    failures.push((
+                        "svs.hl.consume.stalled_bytes_mismatch".to_string(),
+                        format!(
+                            "pull_consume_async over {} with a consumer stalling {} reported success with {} bytes, producer emitted {}; first difference {:?}",
+                            job.client, p.variant, b.len(), job.built_logical.len(), first_diff(b, &job.built_logical)
+                        ),
+                    ));
+                }
             }
             if job.stream_token.starts_with("z:") { format!("{idx} ok {}", b.len()) } else { format!("{idx} ok {} {}", b.len(), fnv(b)) }
         }
@@ -1082,6 +1209,150 @@ fn finish_stall(job: StallJob, idx: &str) -> RawResult {
         }
     };
     RawResult { op, obs, nontrivial: true, failures, skip }
+}
+
+// ------------------------------------------------------------------------------------------
+// concurrent opens: n clients on separate connections, released together, each opens and pulls its
+// own payload, `rounds` times.  Ids of simultaneously open streams must be pairwise distinct; every
+// consumer gets exactly its own payload and exactly one `last`.
+// ------------------------------------------------------------------------------------------
+fn pat(a: usize, b: usize, n: usize) -> Vec<u8> {
+    (0..n).map(|i| ((a * i + b) % 251) as u8).collect()
+}
+
+fn exec_conc(sv: &mut Servers, out: &mut Out, idx: &str, srv: &str, chunk: usize, depth: usize, n: usize, rounds: usize, l: usize) -> Option<RawResult> {
+    let op = format!("conc {idx} {srv} {chunk} {depth} {n} {rounds} {l}");
+    out.begin(&op);
+    let addr = sv.addr(srv, "reader", 0, chunk, depth)?;
+    let sv: &Servers = sv;
+    let barrier = std::sync::Barrier::new(n);
+    // per client: per round (stream id, pulled bytes, lasts, error)
+    type RoundRes = (Option<u64>, Vec<u8>, usize, Option<String>);
+    let results: Vec<Vec<RoundRes>> = std::thread::scope(|scope| {
+        let handles: Vec<_> = (0..n)
+            .map(|i| {
+                let barrier = &barrier;
+                scope.spawn(move || {
+                    let mut conn = Conn::connect(sv, srv, addr);
+                    let mut res: Vec<RoundRes> = Vec::new();
+                    for j in 0..rounds {
+                        let data = pat(7, (16 * i + j) % 251, l + 3 * i + j);
+                        let spec = Spec {
+                            data: Arc::new(data), evs: vec![], piece: 8192, interrupt_every: 0, fail_at: NONE, end: End::Ok, slow_us: 0,
+                            gate: None, pause: None, value: None, typed_u8: None, typed_f64: None, complex: None,
+                        };
+                        let resource = register(spec);
+                        let mut rr: RoundRes = (None, Vec::new(), 0, None);
+                        barrier.wait();
+                        let opened = match &mut conn {
+                            Ok(c) => do_open(c, sv, &resource).map(|o| o.stream_id),
+                            Err(e) => Err(e.clone()),
+                        };
+                        // everybody holds an open stream now
+                        barrier.wait();
+                        match (opened, &mut conn) {
+                            (Ok(id), Ok(c)) => {
+                                rr.0 = Some(id);
+                                let mut probs = Vec::new();
+                                for _ in 0..100_000 {
+                                    match do_next(c, sv, id, &mut probs) {
+                                        Pulled::Chunk { body, last } => {
+                                            rr.1.extend_from_slice(&body);
+                                            if last == 1 {
+                                                rr.2 += 1;
+                                                break;
+                                            }
+                                        }
+                                        Pulled::Err => { rr.3 = Some("next answered an error".into()); break; }
+                                        Pulled::Bad(e) => { rr.3 = Some(e); break; }
+                                    }
+                                }
+                            }
+                            (Err(e), _) => rr.3 = Some(format!("open: {e}")),
+                            (_, Err(e)) => rr.3 = Some(e.clone()),
+                        }
+                        // nobody opens the next round's stream before every stream of this one is finished
+                        barrier.wait();
+                        unregister(&resource);
+                        res.push(rr);
+                    }
+                    if let Ok(c) = conn {
+                        c.close(sv);
+                    }
+                    res
+                })
+            })
+            .collect();
+        handles.into_iter().map(|h| h.join().unwrap_or_default()).collect()
+    });
+    let mut failures: Vec<(String, String)> = Vec::new();
+    let mut all_distinct = true;
+    let mut toks = Vec::new();
+    for j in 0..rounds {
+        let mut ids: Vec<u64> = Vec::new();
+        for i in 0..n {
+            let Some(rr) = results.get(i).and_then(|r| r.get(j)) else {
+                failures.push(("svs.conc.client_died".into(), format!("client {i} round {j} has no result")));
+                toks.push("none".to_string());
+                continue;
+            };
+            let want = pat(7, (16 * i + j) % 251, l + 3 * i + j);
+            if let Some(id) = rr.0 {
+                if ids.contains(&id) {
+                    all_distinct = false;
+                    failures.push(("svs.conc.same_stream_id".into(), format!("round {j}: two simultaneously open streams share id {id}")));
+                }
+                ids.push(id);
+            }
+            match &rr.3 {
+                Some(e) => {
+                    let sig = if e.contains("timeout") { "svs.conc.timeout" } else { "svs.conc.unexpected_error" };
+                    failures.push((sig.into(), format!("client {i} round {j}: {e} (healthy producer, own stream)")));
+                    toks.push("err".into());
+                }
+                None => {
+                    if rr.1 != want {
+                        failures.push(("svs.conc.concat_mismatch".into(), format!("client {i} round {j}: pulled {} bytes, its producer emitted {}; first difference {:?}", rr.1.len(), want.len(), first_diff(&rr.1, &want))));
+                    }
+                    if rr.2 != 1 {
+                        failures.push(("svs.conc.last_count".into(), format!("client {i} round {j}: {} chunks carried last=1", rr.2)));
+                    }
+                    toks.push(format!("{}:{}:{}", rr.1.len(), fnv(&rr.1), rr.2));
+                }
+            }
+        }
+    }
+    let obs = format!("{idx} conc {} {}", if all_distinct { "distinct" } else { "same" }, toks.join(" "));
+    Some(RawResult { op, obs, nontrivial: true, failures, skip: false })
+}
+
+// ------------------------------------------------------------------------------------------
+// paused producer (sync pullers): the writer sleeps once, longer than any plausible reply timeout,
+// before some chunk; `pull_to_vec` over the blocking `Client` on its own thread.  One-sided: `Ok`
+// must carry exactly the producer's bytes; an `Err` is a skip.
+// ------------------------------------------------------------------------------------------
+fn start_paused(sv: &mut Servers, p: &Params) -> Option<StallJob> {
+    let built = build(p)?;
+    built.spec.pause?;
+    let resource = register(built.spec.clone());
+    let addr = sv.addr(&p.srv, &p.kind, p.comp, p.chunk, p.depth)?;
+    let res = resource.clone();
+    let handle = std::thread::spawn(move || match repe::Client::connect(addr) {
+        Err(e) => HlOut::Err(format!("connect:{e}")),
+        Ok(c) => match repe::pull_to_vec(&c, &res) {
+            Ok(b) => HlOut::Bytes(b),
+            Err(e) => HlOut::Err(err_class(&e)),
+        },
+    });
+    Some(StallJob {
+        p: p.clone(),
+        client: "sync".to_string(),
+        stream_token: stream_tok(&built.logical, built.is_pattern),
+        evs_tok: built.evs_tok.clone(),
+        built_logical: built.logical,
+        resource,
+        handle,
+    })
 }
 
 // ------------------------------------------------------------------------------------------
@@ -1306,6 +1577,25 @@ impl Runner {
         }
         j
     }
+    fn paused_start(&mut self, p: &Params) -> Option<StallJob> {
+        self.count(p, "paused");
+        self.out.count(&format!("svs.hl.sync.vec.{}", p.variant));
+        let j = start_paused(&mut self.sv, p);
+        if j.is_none() {
+            self.out.count("svs.generator.unbuildable");
+        }
+        j
+    }
+    fn conc(&mut self, srv: &str, chunk: usize, depth: usize, n: usize, rounds: usize, l: usize) {
+        self.n += 1;
+        let idx = format!("{}", self.n);
+        self.out.count("svs.op.conc");
+        self.out.count(&format!("svs.conc.{srv}.clients{n}"));
+        match exec_conc(&mut self.sv, &mut self.out, &idx, srv, chunk, depth, n, rounds, l) {
+            Some(r) => self.finish_case(r),
+            None => self.out.count("svs.generator.unbuildable"),
+        }
+    }
     fn stall_finish(&mut self, job: StallJob) {
         self.n += 1;
         let idx = format!("{}", self.n);
@@ -1424,10 +1714,16 @@ fn main() {
                 Some("hl") => if let Some((p, client, puller)) = params_from_hl(&w) {
                     if puller == "consume" {
                         if let Some(j) = run.stall_start(&p, &client) { run.stall_finish(j); }
+                    } else if client == "sync" && puller == "vec" && p.variant.starts_with("pz") {
+                        if let Some(j) = run.paused_start(&p) { run.stall_finish(j); }
                     } else {
                         run.hl(&p, &client, &puller);
                     }
                 },
+                Some("conc") if w.len() == 8 => {
+                    let f: Vec<usize> = w[3..8].iter().filter_map(|x| x.parse().ok()).collect();
+                    if f.len() == 5 && f[2] >= 1 && f[2] <= 32 { run.conc(w[2], f[0], f[1], f[2], f[3], f[4]); }
+                }
                 Some("duo") => if let Some((pa, pb, script)) = params_from_duo(&w) { run.duo(&pa, &pb, &script); },
                 _ => {}
             }
@@ -1460,6 +1756,20 @@ fn main() {
         }
     }
 
+    // (P) paused producers for the blocking puller, on their own threads (joined at the end)
+    {
+        let pauses: Vec<(u64, bool)> = if thorough { vec![(6500, true), (6500, false), (12000, false), (30000, true)] } else { vec![(6500, true), (6500, false)] };
+        for (ms, head) in pauses {
+            rot += 1;
+            let chunk = *r.pick(&[256usize, 1024]);
+            let mut p = base("tcp", "writer:0", 0, chunk, rot % 9);
+            let nchunks = 10 + r.below(8) as usize;
+            p.evs = (0..nchunks).map(|_| Ev::W(chunk)).chain(std::iter::once(Ev::W(1 + r.below(chunk as u64 - 1) as usize))).collect();
+            let at = if head { 0 } else { nchunks / 2 };
+            p.variant = format!("pz{ms}at{at}");
+            if let Some(j) = run.paused_start(&p) { stall_jobs.push(j); }
+        }
+    }
     // (A) boundary grid, uncompressed: every chunk size x k=0..4 x {-1,0,+1}
     for &chunk in &small_chunks {
         for n in boundary_lengths(chunk, 4) {
@@ -1550,6 +1860,29 @@ fn main() {
         p.fail_at = if rot % 5 == 0 { r.below(1000) as usize } else { 135_000 + r.below(160_000) as usize };
         p.end = if rot % 3 == 0 { End::Vanish } else { End::Err };
         run.raw(&p, "N,n");
+    }
+    // (Q) `cancel` while a `next` is parked on a gated producer
+    for k in 0..(if thorough { 60 } else { 8 }) {
+        rot += 1;
+        let chunk = *r.pick(&[1usize, 3, 7, 64]);
+        let srv = srvs[k % 2];
+        let mut p = base(srv, "writer:0", 0, chunk, r.below(9) as usize);
+        // `pre` chunks flow, the gate holds the rest back
+        let pre = 2 + r.below(3) as usize;
+        let post = 2 + r.below(4) as usize;
+        p.evs = (0..pre + post).map(|_| Ev::W(chunk)).collect();
+        p.variant = format!("g{pre}");
+        // pre-1 chunks can be pulled (the last of them is the lookahead); the next `next` parks
+        let mut script: Vec<&str> = vec!["n"; pre - 1];
+        script.push("q");
+        script.extend(["n", "n", "n"]);
+        run.raw(&p, &script.join(","));
+    }
+    // (C) concurrent opens on separate connections
+    for k in 0..(if thorough { 40 } else { 6 }) {
+        let n = 4 + r.below(5) as usize;
+        let chunk = *r.pick(&[3usize, 7, 64]);
+        run.conc(srvs[k % 2], chunk, r.below(9) as usize, n, if thorough { 12 } else { 8 }, 5 + r.below(40) as usize);
     }
     // (F2) two streams open at once on one connection: isolation of sessions, ids, lookahead
     for _ in 0..(if thorough { 600 } else { 60 }) {
